@@ -371,12 +371,22 @@ def main():
             gram = m @ m.T.conj() if right else m.T.conj() @ m
             ev = torch.linalg.eigvalsh(gram)
             disc = float(ev[: n - k].sum())
+            # floating point (A1): the eigenvalues of the Gram matrix carry an absolute error of
+            # about machine epsilon times its norm -- not a violation of the real-number clause
+            fp = 1e-12 * float(ev.abs().sum()) + 1e-300
             ok = left.shape[0] == r and rgt.shape[1] == c and rgt.shape[0] == k and 1 <= k <= rank and k <= n \
-                and (disc <= eps * eps * (1 + 1e-9) + 1e-18 or k == rank)
+                and (disc <= eps * eps * (1 + 1e-9) + fp or k == rank)
             if not ok:
                 print(f"REPRODUCED: split_matrix(shape {r}x{c}, max_error={eps}, max_rank={rank}, "
                       f"orth_center_right={right}) -> bond {k}, discarded weight {disc}, budget {eps*eps}")
                 return 1
+            if not pn:
+                # what is actually discarded: |m - l r|^2 (must be the weight of the dropped directions)
+                lost = float(torch.linalg.norm(m - left @ rgt) ** 2)
+                if lost > eps * eps * (1 + 1e-9) + fp and k != rank:
+                    print(f"REPRODUCED: split_matrix(shape {r}x{c}, max_error={eps}, max_rank={rank}, "
+                          f"orth_center_right={right}) -> bond {k} < cap, but |m - l r|^2 = {lost} > max_error^2 = {eps*eps}")
+                    return 1
             # the factor away from the future centre is an isometry
             iso = left if right else rgt
             g = iso.T.conj() @ iso if right else iso @ iso.T.conj()
